@@ -179,6 +179,11 @@ func DischargeAll(obls []*Obligation, covers []*Cover, o DischargeOpts) (res []*
 				limit = 5
 			}
 			st, solver, t, all, dis := discharge(j.r.File, limit, o.Race)
+			for try := 0; st == "error" && try < 2; try++ {
+				// every solver failed to start or died (a loaded machine): not an answer, ask again
+				time.Sleep(500 * time.Millisecond)
+				st, solver, t, all, dis = discharge(j.r.File, limit, o.Race)
+			}
 			if (st == "timeout" || st == "unknown") && o.Race && j.r.Cover == nil && !o.NoRetry && !known {
 				// one retry with a longer limit before reporting
 				st, solver, t, all, dis = discharge(j.r.File, 3*o.TimeoutS, true)
